@@ -1,7 +1,7 @@
 (* SymCoreC02Summary.v -- the conjunctions stated in Properties/C02.v, assembled from the lemmas of the other C02 proof files. *)
 From Coq Require Import ZArith NArith List Bool.
 From PG Require Import Common.Tactics Model.SymCoreDefs Model.SymCoreOps Model.SymCoreSpec Model.SymCoreC02
-     Proofs.SymCoreWF Proofs.SymCoreC02Base Proofs.SymCoreC02Read Proofs.SymCoreC02Frame Proofs.SymCoreC02Prim
+     Proofs.SymCoreWF Proofs.SymCoreIds Proofs.SymCoreC02Base Proofs.SymCoreC02Read Proofs.SymCoreC02Frame Proofs.SymCoreC02Prim
      Proofs.SymCoreC02List Proofs.SymCoreC02Dict Proofs.SymCoreC02Step Proofs.SymCoreC02Ext Proofs.PyListFacts
      Proofs.SymCoreC02Slice Proofs.SymCoreC02WF Proofs.SymCoreC02Examples.
 From PG Require Model.PyList Model.PyDict.
@@ -15,12 +15,12 @@ Proof.
 Qed.
 
 Lemma c02_history_list_proof : forall q ps tid pa fl, no_quirks q -> forall h st its,
-  wfs st -> at_is st ps tid KList pa fl its -> clean its -> anc_clean st ps -> lhist2_ok fl (evals its) h ->
+  WF st -> at_is st ps tid KList pa fl its -> clean its -> anc_clean st ps -> lhist2_ok fl (evals its) h ->
   option_map erase (get_at (run_ops2 q st (on_pos2 ps h)) ps) = Some (plist (lhist2_py (evals its) h)) /\
-  wfs (run_ops2 q st (on_pos2 ps h)).
+  WF (run_ops2 q st (on_pos2 ps h)).
 Proof.
-  intros. split. eapply history2_list_erase; eauto.
-  destruct (history2_list_refines q ps tid pa fl H h st its H0 H1 H2 H3 H4) as (? & ? & ? & ? & ? & ?); auto.
+  intros. apply WF_WFI in H0. split. eapply history2_list_erase; eauto.
+  destruct (history2_list_refines q ps tid pa fl H h st its H0 H1 H2 H3 H4) as (? & ? & ? & ? & ? & ?). apply WF_WFI; auto.
 Qed.
 Lemma c02_history_dict_proof : forall q ps tid pa fl, no_quirks q -> forall h st its,
   wfs st -> at_is st ps tid KDict pa fl its -> clean its -> anc_clean st ps -> dhist_ok fl (eitems its) h ->
@@ -32,16 +32,16 @@ Proof.
 Qed.
 
 Lemma c02_history_hypotheses_example_proof :
-  wfs ex_state /\
+  WF ex_state /\
   (at_is ex_state (0%nat, []) 1%N KList None default_flags ex_list_items /\ clean ex_list_items /\ anc_clean ex_state (0%nat, []) /\
-   lhist2_ok default_flags (evals ex_list_items) ex_list_history) /\
+   lhist2_ok default_flags (evals ex_list_items) ex_list_history /\ lhist2_ok default_flags (evals ex_list_items) ex_mul_history) /\
   (at_is ex_state (1%nat, []) 3%N KDict None default_flags ex_dict_items /\ clean ex_dict_items /\ anc_clean ex_state (1%nat, []) /\
    dhist_ok default_flags (eitems ex_dict_items) ex_dict_history) /\
   (at_is ex_state ex_nested_pos 2%N KDict (Some 1%N) default_flags ex_nested_items /\ clean ex_nested_items /\
    anc_clean ex_state ex_nested_pos /\ dhist_ok default_flags (eitems ex_nested_items) ex_nested_history).
 Proof.
-  split; [exact ex_state_wfs|]. destruct ex_list_hypotheses as (A1 & A2 & A3). destruct ex_dict_hypotheses as (B1 & B2 & B3).
-  split; [exact (conj A1 (conj A2 (conj (anc_clean_root _ _) A3)))|].
+  split; [apply WF_WFI; exact ex_state_WFI|]. destruct ex_list_hypotheses as (A1 & A2 & A3). destruct ex_dict_hypotheses as (B1 & B2 & B3).
+  split; [exact (conj A1 (conj A2 (conj (anc_clean_root _ _) (conj A3 ex_mul_hypotheses))))|].
   split; [exact (conj B1 (conj B2 (conj (anc_clean_root _ _) B3)))|].
   exact ex_nested_hypotheses.
 Qed.
